@@ -758,7 +758,10 @@ class _MissingImportFinder:
                 self.visit(node.decorator_list)
                 self.visit(node.args)
                 if node.returns:
-                    self.visit(node.returns)
+                    # Evaluated in the enclosing scope, like the parameter
+                    # annotations: 'def f(x) -> x' reads the global 'x'.
+                    with self._UpScopeCtx():
+                        self.visit(node.returns)
                 self._visit_typecomment(node.type_comment)
                 old_in_FunctionDef = self._in_FunctionDef
                 self._in_FunctionDef = True
